@@ -384,7 +384,129 @@ fn run_pairs(ctx: &mut Ctx) {
     }
 }
 
+
+/// The size ladder: programs whose parameter lists, return lists, locals and temporaries have total sizes
+/// around the `i16` range of `fp` / `ap` offsets (type sizes themselves are capped at i16::MAX by the type
+/// size computation, sums of them are not). Every libfunc shape that copies a whole value is included.
+fn size_ladder() -> Vec<(String, String)> {
+    // A = 10, B = 100, C = 1000, D = 10000 felts
+    let st = |name: &str, members: &[(&str, usize)]| -> String {
+        let ms: Vec<String> = members.iter().flat_map(|(t, n)| std::iter::repeat(t.to_string()).take(*n)).collect();
+        format!("type {name} = Struct<ut@{name}, {}>;", ms.join(", "))
+    };
+    let mut types = vec!["type felt252 = felt252;".to_string(), st("A", &[("felt252", 10)]), st("B", &[("A", 10)]), st("C", &[("B", 10)]), st("D", &[("C", 10)])];
+    // T<n> for n = 32767 - k: 3 D + 2 C + 7 B + 6 A + (7 - k) felts
+    let sizes: Vec<usize> = vec![32767, 32766, 32765, 32764, 32763, 32760, 30000, 20000, 16384, 16383, 10922];
+    for n in &sizes {
+        let (d, r) = (n / 10000, n % 10000);
+        let (c, r) = (r / 1000, r % 1000);
+        let (b, r) = (r / 100, r % 100);
+        let (a, f) = (r / 10, r % 10);
+        types.push(st(&format!("T{n}"), &[("D", d), ("C", c), ("B", b), ("A", a), ("felt252", f)]));
+    }
+    let mut out = vec![];
+    let prog = |types: &[String], libfuncs: &[String], body: &[String]| format!("{}\n{}\n{}\n", types.join("\n"), libfuncs.join("\n"), body.join("\n"));
+    for n in &sizes {
+        let t = format!("T{n}");
+        let lf = |g: &str| format!("libfunc {g}<{t}> = {g}<{t}>;");
+        // k parameters of the type, dropped
+        for k in [1usize, 2, 3, 4] {
+            let params: Vec<String> = (0..k).map(|i| format!("[{i}]: {t}")).collect();
+            let mut body: Vec<String> = (0..k).map(|i| format!("drop<{t}>([{i}]) -> ();")).collect();
+            body.push("return();".into());
+            body.push(format!("test::f@0({}) -> ();", params.join(", ")));
+            out.push((format!("size:params:{k}x{n}"), prog(&types, &[lf("drop")], &body)));
+        }
+        // identity through store_temp, dup, rename, locals, a call, a box, an array
+        out.push((format!("size:store_temp:{n}"), prog(&types, &[lf("store_temp")], &[format!("store_temp<{t}>([0]) -> ([0]);"), "return([0]);".into(), format!("test::f@0([0]: {t}) -> ({t});")])));
+        out.push((format!("size:dup:{n}"), prog(&types, &[lf("dup"), lf("store_temp")], &[format!("dup<{t}>([0]) -> ([0], [1]);"), format!("store_temp<{t}>([0]) -> ([0]);"), format!("store_temp<{t}>([1]) -> ([1]);"), "return([0], [1]);".into(), format!("test::f@0([0]: {t}) -> ({t}, {t});")])));
+        out.push((
+            format!("size:locals:{n}"),
+            prog(
+                &[types.clone(), vec![format!("type Uninitialized<{t}> = Uninitialized<{t}>;")]].concat(),
+                &[lf("alloc_local"), "libfunc finalize_locals = finalize_locals;".into(), lf("store_local"), lf("store_temp")],
+                &[format!("alloc_local<{t}>() -> ([1]);"), format!("alloc_local<{t}>() -> ([2]);"), "finalize_locals() -> ();".into(), format!("store_local<{t}>([2], [0]) -> ([0]);"), format!("store_local<{t}>([1], [0]) -> ([0]);"), format!("store_temp<{t}>([0]) -> ([0]);"), "return([0]);".into(), format!("test::f@0([0]: {t}) -> ({t});")],
+            ),
+        ));
+        out.push((
+            format!("size:call:{n}"),
+            prog(&types, &[lf("store_temp"), "libfunc function_call<user@test::g> = function_call<user@test::g>;".into()], &[format!("store_temp<{t}>([0]) -> ([0]);"), "function_call<user@test::g>([0]) -> ([1]);".into(), "return([1]);".into(), format!("store_temp<{t}>([0]) -> ([0]);"), "return([0]);".into(), format!("test::f@0([0]: {t}) -> ({t});"), format!("test::g@3([0]: {t}) -> ({t});")]),
+        ));
+        out.push((
+            format!("size:box:{n}"),
+            prog(&[types.clone(), vec![format!("type Box<{t}> = Box<{t}>;")]].concat(), &[lf("into_box"), lf("unbox"), lf("store_temp")], &[format!("into_box<{t}>([0]) -> ([1]);"), format!("unbox<{t}>([1]) -> ([2]);"), format!("store_temp<{t}>([2]) -> ([2]);"), "return([2]);".into(), format!("test::f@0([0]: {t}) -> ({t});")]),
+        ));
+        out.push((
+            format!("size:array:{n}"),
+            prog(
+                &[types.clone(), vec![format!("type Array<{t}> = Array<{t}>;")]].concat(),
+                &[lf("array_new"), lf("array_append"), format!("libfunc store_temp<Array<{t}>> = store_temp<Array<{t}>>;")],
+                &[format!("array_new<{t}>() -> ([1]);"), format!("array_append<{t}>([1], [0]) -> ([2]);"), format!("store_temp<Array<{t}>>([2]) -> ([2]);"), "return([2]);".into(), format!("test::f@0([0]: {t}) -> (Array<{t}>);")],
+            ),
+        ));
+        out.push((
+            format!("size:enum:{n}"),
+            prog(&[types.clone(), vec![format!("type E = Enum<ut@E, {t}, felt252>;")]].concat(), &[format!("libfunc enum_init<E, 0> = enum_init<E, 0>;"), "libfunc store_temp<E> = store_temp<E>;".into()], &[format!("enum_init<E, 0>([0]) -> ([1]);"), "store_temp<E>([1]) -> ([1]);".into(), "return([1]);".into(), format!("test::f@0([0]: {t}) -> (E);")]),
+        ));
+        out.push((
+            format!("size:deconstruct:{n}"),
+            prog(&[types.clone(), vec![format!("type P = Struct<ut@P, {t}, felt252>;")]].concat(), &["libfunc struct_deconstruct<P> = struct_deconstruct<P>;".into(), lf("drop"), "libfunc store_temp<felt252> = store_temp<felt252>;".into()], &["struct_deconstruct<P>([0]) -> ([1], [2]);".into(), format!("drop<{t}>([1]) -> ();"), "store_temp<felt252>([2]) -> ([2]);".into(), "return([2]);".into(), "test::f@0([0]: P) -> (felt252);".into()]),
+        ));
+    }
+    // k temporaries of one big type alive at once (ap-relative offsets beyond i16), returned together
+    for n in [30000usize, 16384, 16383, 10922] {
+        let t = format!("T{n}");
+        for k in [2usize, 3, 4] {
+            let mut body: Vec<String> = vec![];
+            for i in 1..k {
+                body.push(format!("dup<{t}>([0]) -> ([0], [{i}]);"));
+            }
+            for i in 0..k {
+                body.push(format!("store_temp<{t}>([{i}]) -> ([{i}]);"));
+            }
+            body.push(format!("return({});", (0..k).map(|i| format!("[{i}]")).collect::<Vec<_>>().join(", ")));
+            body.push(format!("test::f@0([0]: {t}) -> ({});", vec![t.clone(); k].join(", ")));
+            out.push((format!("size:temps:{k}x{n}"), prog(&types, &[format!("libfunc dup<{t}> = dup<{t}>;"), format!("libfunc store_temp<{t}> = store_temp<{t}>;")], &body)));
+        }
+    }
+    // very many small parameters
+    for k in [32764usize, 32765, 32766, 40000] {
+        let params: Vec<String> = (0..k).map(|i| format!("[{i}]: felt252")).collect();
+        let mut body: Vec<String> = (0..k).map(|i| format!("drop<felt252>([{i}]) -> ();")).collect();
+        body.push("return();".into());
+        body.push(format!("test::f@0({}) -> ();", params.join(", ")));
+        out.push((format!("size:many-params:{k}"), prog(&types[..1], &["libfunc drop<felt252> = drop<felt252>;".to_string()], &body)));
+    }
+    out
+}
+
+fn run_size_ladder(ctx: &mut Ctx) {
+    for (name, text) in size_ladder() {
+        ctx.case(
+            || json!({"space":"size-ladder","program":name}),
+            |ctx| {
+                let p = match cairo_lang_sierra::ProgramParser::new().parse(&text) {
+                    Ok(p) => p,
+                    Err(e) => panic!("harness: size ladder program {name} does not parse: {e:?}"),
+                };
+                for linear in [true, false] {
+                    if !ctx.sub(|| json!({"program": name, "linear": linear, "sierra": text.chars().rev().take(600).collect::<String>().chars().rev().collect::<String>()})) {
+                        continue;
+                    }
+                    ctx.count("evaluations", 1);
+                    ctx.distinct(&(name.as_str(), linear));
+                    match ctx.guarded(|| pipeline(&p, linear)) {
+                        Ok(st) => ctx.outcome(&format!("size-ladder:{st:?}")),
+                        Err((loc, msg)) => ctx.violation(panic_sig(&loc, &msg), format!("panic at {loc}: {}", msg.chars().take(200).collect::<String>()), json!({"program": name, "linear": linear})),
+                    }
+                }
+            },
+        );
+    }
+}
+
 fn run(ctx: &mut Ctx) {
+    run_size_ladder(ctx);
     run_pairs(ctx);
     run_program_mutants(ctx);
     run_felt_mutants(ctx);
@@ -395,7 +517,7 @@ fn run(ctx: &mut Ctx) {
 pub static C14: CheckDef = CheckDef {
     id: "C14",
     level: "exploration",
-    rule: "(a) every single-point mutant (statement delete/duplicate/swap; libfunc id -> other declared libfunc; argument/result/param var -> other var or fresh; branch target -> any statement or fallthrough; entry point -> any statement; return list swap/truncate/extend; type/libfunc/function declaration delete/duplicate/swap/move-to-end; generic arg -> +-1,0,-1,2^128,2^251,-2^127,u64::MAX,other type/kind, dropped, duplicated; signature type -> other declared type; declared-type-info bit flips) of every corpus Sierra program up to the statement bound (quick: e2e programs <=60 statements with capped replacement alphabets; thorough: e2e + *.sierra files <=400 statements, full alphabets <=120 statements) through ProgramRegistryInfo::new -> calc_metadata (linear AND legacy equation solvers) -> compile; (b) for corpus programs serialized as a contract class: every position of the uncompressed felt stream and of the compressed container x 12-14 boundary replacements + delete + duplicate + truncate, and every felt vector of length <=3 (4) over a 7-value set with and without a valid version header, through ContractClass::extract_sierra_program -> CasmContractClass::from_contract_class. (c) the instantiation lattice (programs no compiler produces): every generic type id (70) x every generic-argument tuple of length <=2, user-type-led tuples of length 3 and (quick <=4, thorough <=6)-tuples over a 5-symbol mixed alphabet, arguments drawn from ~45 accepted edge types (zero-sized and empty structs, empty enum, consts of every shape incl. zero-sized / nested / enum / NonZero consts, BoundedInt<0,0>, circuit gates and circuits incl. the empty circuit), 8 boundary values, user types and user functions, each declared through ProgramRegistryInfo::new; then every generic libfunc id of CoreLibfunc::supported_ids() x the same tuples over the ~150-type universe, specialised with the real `specialize`, and every accepted instantiation wrapped in a function that takes the libfunc's parameters and returns / drops its outputs (fallthrough branch laid out first) and pushed through the whole pipeline with both solvers. (d) thorough: second-order mutants MUT(MUT(s)) of the <=200 smallest programs (<=9 statements; capped alphabets), both solvers. Oracle: returns Ok/Err; panic, abort, stack overflow, watchdog or address-space cap = violation keyed by panic site. distinct_nontrivial = distinct mutants.",
+    rule: "(a) every single-point mutant (statement delete/duplicate/swap; libfunc id -> other declared libfunc; argument/result/param var -> other var or fresh; branch target -> any statement or fallthrough; entry point -> any statement; return list swap/truncate/extend; type/libfunc/function declaration delete/duplicate/swap/move-to-end; generic arg -> +-1,0,-1,2^128,2^251,-2^127,u64::MAX,other type/kind, dropped, duplicated; signature type -> other declared type; declared-type-info bit flips) of every corpus Sierra program up to the statement bound (quick: e2e programs <=60 statements with capped replacement alphabets; thorough: e2e + *.sierra files <=400 statements, full alphabets <=120 statements) through ProgramRegistryInfo::new -> calc_metadata (linear AND legacy equation solvers) -> compile; (b) for corpus programs serialized as a contract class: every position of the uncompressed felt stream and of the compressed container x 12-14 boundary replacements + delete + duplicate + truncate, and every felt vector of length <=3 (4) over a 7-value set with and without a valid version header, through ContractClass::extract_sierra_program -> CasmContractClass::from_contract_class. (c) the instantiation lattice (programs no compiler produces): every generic type id (70) x every generic-argument tuple of length <=2, user-type-led tuples of length 3 and (quick <=4, thorough <=6)-tuples over a 5-symbol mixed alphabet, arguments drawn from ~45 accepted edge types (zero-sized and empty structs, empty enum, consts of every shape incl. zero-sized / nested / enum / NonZero consts, BoundedInt<0,0>, circuit gates and circuits incl. the empty circuit), 8 boundary values, user types and user functions, each declared through ProgramRegistryInfo::new; then every generic libfunc id of CoreLibfunc::supported_ids() x the same tuples over the ~150-type universe, specialised with the real `specialize`, and every accepted instantiation wrapped in a function that takes the libfunc's parameters and returns / drops its outputs (fallthrough branch laid out first) and pushed through the whole pipeline with both solvers. (e) the size ladder: 11 struct types of 10 922 .. 32 767 cells (type sizes are capped at i16::MAX, their sums are not) as 1..4 parameters, through store_temp / dup / two locals / a call / box / array / enum / deconstruct, 2..4 big temporaries returned together, and 32 764 .. 40 000 felt252 parameters. (d) thorough: second-order mutants MUT(MUT(s)) of the <=200 smallest programs (<=9 statements; capped alphabets), both solvers. Oracle: returns Ok/Err; panic, abort, stack overflow, watchdog or address-space cap = violation keyed by panic site. distinct_nontrivial = distinct mutants.",
     assumptions: &["corpus programs are seeds; the mutation operators carry the quantifier", "4 GiB address-space cap and 60 s per 500-mutant item stand for 'allocates without bound' / 'hangs'"],
     run,
     stack_mb: 8,
